@@ -377,9 +377,14 @@ def run_race(ctx, case):
             reqs = {}
             for r in sim.request_log:
                 reqs[r["task"]] = reqs.get(r["task"], 0) + 1
+            # iteration-based tasks: clients × iterations requests; time-based tasks: at least one request per client (how many fit into
+            # the period is not this property's subject)
+            timed = {t["name"] for _, ts in remaining for t in ts if t.get("time_period")}
             want = {t["name"]: t["clients"] * (t.get("iterations") or 1) for _, ts in remaining for t in ts}
-            if reqs != want:
-                ctx.fail(cls + ":executed", "the driver did not execute exactly the remaining tasks (requests per task)", want, reqs)
+            ok = set(reqs) == set(want) and all((reqs[n] >= want[n]) if n in timed else (reqs[n] == want[n]) for n in want)
+            if not ok:
+                ctx.fail(cls + ":executed", "the driver did not execute exactly the remaining tasks (requests per task; time-based tasks: at least one per client)",
+                         {n: (f">={v}" if n in timed else v) for n, v in want.items()}, reqs)
         ctx.sig(["race", case["mode"], exclude, S == 0, S == len(sc["schedule"]), res], nontrivial=True)
     finally:
         sim.shutdown()
